@@ -175,6 +175,19 @@ impl Shred {
         matches!(self.payload_type, ShredPayloadType::Coding(_))
     }
 
+    /// Whether the shred index lies within the width of the tree spanned by the Merkle path.
+    ///
+    /// Deriving the root ignores index bits beyond the length of the path, so without this
+    /// check the same payload would be proven at several positions of a smaller tree.
+    #[must_use]
+    pub fn index_within_path_width(&self) -> bool {
+        let height = self.merkle_path.as_ref().len();
+        u32::try_from(height)
+            .ok()
+            .and_then(|h| (*self.payload().shred_index).checked_shr(h))
+            .is_none_or(|rest| rest == 0)
+    }
+
     /// Derives the Merkle root of the slice from this shred's proof.
     #[must_use]
     pub fn slice_root(&self) -> SliceRoot {
